@@ -17,13 +17,16 @@ package auth
 import (
 	"errors"
 	"fmt"
+	"sync"
 )
 
 var (
 	// ErrAuthFailure indocates an authentication failure.
 	ErrAuthFailure = errors.New("auth: Authentication failure")
 
-	providers = make(map[string]Authenticator)
+	// providersMu guards providers.
+	providersMu sync.RWMutex
+	providers   = make(map[string]Authenticator)
 )
 
 // Authenticator is the interface for an authentication provider.
@@ -37,6 +40,9 @@ func Register(name string, provider Authenticator) {
 		panic("auth: Register provide is nil")
 	}
 
+	providersMu.Lock()
+	defer providersMu.Unlock()
+
 	if _, dup := providers[name]; dup {
 		panic("auth: Register called twice for provider " + name)
 	}
@@ -46,6 +52,9 @@ func Register(name string, provider Authenticator) {
 
 // Unregister unregisters an authenticator.
 func Unregister(name string) {
+	providersMu.Lock()
+	defer providersMu.Unlock()
+
 	delete(providers, name)
 }
 
@@ -56,7 +65,9 @@ type Manager struct {
 
 // NewManager creates a new manager.
 func NewManager(providerName string) (*Manager, error) {
+	providersMu.RLock()
 	p, ok := providers[providerName]
+	providersMu.RUnlock()
 	if !ok {
 		return nil, fmt.Errorf("session: unknown provider %q", providerName)
 	}
